@@ -9,6 +9,7 @@ mod modcmp;
 mod msgh;
 mod sockh;
 mod tcbh;
+mod tcplh;
 mod udph;
 
 pub use hv_common::{simh, util};
@@ -34,6 +35,7 @@ fn main() {
         "arp-drive" => arph::drive(&args),
         "dns-drive" => dnsh::drive(&args),
         "sock-drive" => sockh::drive(&args),
+        "tcpl-drive" => tcplh::drive(&args),
         "codec-drive" => codech::drive(&args),
         "decode-drive" => codech::decode_drive(&args),
         "reasm-drive" => ipfrag::reasm_drive(&args),
